@@ -2,7 +2,7 @@
    paired with end-or-error, for the right node, with that node's run info; designated
    handlers only there; stream payload copies independent.
    Only statements, each closed by [exact]; non-vacuity Examples; [_refuted] witnesses for the
-   code as it was before the repair of F-C10 (8b69b91). *)
+   code as it was before the repairs of F-C10 (8b69b91), F-C10c (db1b29b) and F-C10d (31b7668). *)
 From Coq Require Import List Arith NArith Bool.
 From Eino Require Import Base.Util Base.GoSlice Model.Callbacks Model.CallbacksStream Model.CallbacksSched
   Model.CallbacksResume Model.CallbacksEager Model.CallbacksPayload.
@@ -392,6 +392,33 @@ Theorem exactly_once_paired_v0_refuted :
 Proof. exact exactly_once_paired_v0_refuted_witness. Qed.
 Print Assumptions exactly_once_paired_v0_refuted.
 
+(* F-C10c (repaired by db1b29b): before the repair a tool call answered by the ToolsNode's
+   UnknownToolsHandler was an execution unit to which the ToolsNode's handlers applied (its context
+   was created with the tool's run info) for which no handler was ever invoked; the repaired code
+   (the model's [call_ops], the same for every tool call) serves it start ++ end. *)
+Theorem unknown_tool_call_v0_refuted :
+  exists (w : world) (is_stream : bool) (pre : list op) (tn : ukey) (c : ukey * info * N * bool),
+    let cu := fst (fst (fst c)) in
+    observed_list (run_script true w (pre ++ call_ops is_stream tn c)) cu = Some [1] /\
+    filter (of_unit cu) (st_log (run_script true w (pre ++ call_ops is_stream tn c))) =
+      [Ev cu 1 TStart 7; Ev cu 1 TEnd 7] /\
+    observed_list (run_script true w (pre ++ call_ops_unknown_v0 tn c)) cu = Some [1] /\
+    filter (of_unit cu) (st_log (run_script true w (pre ++ call_ops_unknown_v0 tn c))) = [].
+Proof. exact unknown_tool_call_v0_refuted_witness. Qed.
+Print Assumptions unknown_tool_call_v0_refuted.
+
+(* F-C10d (repaired by 31b7668): before the repair a node whose component panicked (the panic is
+   contained by the engine and reported as the node's error) was served its start callbacks and no
+   end of any kind; the repaired code serves start ++ error, as for a returned error ([fails]). *)
+Theorem panicking_unit_v0_refuted :
+  exists (w : world) (pre : list op) (opts : list copt),
+    filter (of_unit 2) (st_log (run_script true w (pre ++ fst (node_ops false 0 opts (GLambda 2 1 2 1 true))))) =
+      [Ev 2 4 TStart 2; Ev 2 1 TStart 2; Ev 2 1 TError 2; Ev 2 4 TError 2] /\
+    filter (of_unit 2) (st_log (run_script true w (pre ++ lambda_ops_panic_v0 false 0 opts 2 1 2 1))) =
+      [Ev 2 4 TStart 2; Ev 2 1 TStart 2].
+Proof. exact panicking_unit_v0_refuted_witness. Qed.
+Print Assumptions panicking_unit_v0_refuted.
+
 (* ------------------------------------------------------------------ eager task collection (Workflow) *)
 
 (* [reorder c t] (Model/CallbacksEager.v): t arises from c by exchanging adjacent operations of
@@ -649,6 +676,32 @@ Example resumed_runs_nonvacuous :
   (* a designation below the completed lambda 3 is rejected by the resumed run, as by the first *)
   map (fun r => graph_ok (snd r) (fst r))
       (run_seqf (S (total_intr ex_plan)) (two_opts ex_popts [([5], [[2; 1; 7]])]) ex_plan) = [true; false].
+Proof.
+  split.
+  - vm_compute. repeat (constructor; [simpl; intuition discriminate|]). constructor.
+  - repeat split; vm_compute; reflexivity.
+Qed.
+
+(* configured interrupt points (compile options WithInterruptBeforeNodes / WithInterruptAfterNodes): the
+   plans the theorems [resumed_runs_*] quantify over contain them ([RStop], a stage of its own).  A graph
+   1 -> stop -> {2, sub graph 3 (4 -> stop -> 5)}: the first run executes node 1 and is interrupted before
+   the second stage (the graph starts and ends with an error, no unit of the second stage exists); the
+   second run executes node 2 and, in the sub graph, node 4, and is interrupted by the sub graph's own
+   interrupt point (the sub graph and the graph end with an error); the third run executes node 5 only. *)
+Definition ex_stop_plan : list (list rnode) :=
+  [[RLambda 1 1 1 1 false 0]; [RStop 1];
+   [RLambda 2 2 2 1 false 0; RSub 3 3 3 [[RLambda 4 1 4 1 false 0]; [RStop 1]; [RLambda 5 2 5 8 false 0]]]].
+
+Example resumed_runs_with_interrupt_points_nonvacuous :
+  NoDup (0 :: rstages_uids ex_stop_plan) /\
+  total_intr ex_stop_plan = 2%nat /\
+  map (fun r => map (fun e => (ue_unit e, ue_list e, ue_timings e)) (graph_table false 0 0 (fst r) (snd r)))
+      (run_seqf (S (total_intr ex_stop_plan)) (fun _ => [([7], []); ([8], [[3; 2]])]) ex_stop_plan) =
+    [[(0, [7], [TStart; TError]); (1, [7], [TStart; TEnd])];
+     [(0, [7], [TStart; TError]); (2, [7], [TStart; TEnd]); (3, [7], [TStart; TError]); (4, [7], [TStart; TEnd])];
+     [(0, [7], [TStart; TEnd]); (3, [7], [TStart; TEnd]); (5, [7; 8], [TStartStream; TEndStream])]] /\
+  (* an interrupt point is no node: no call option can address it *)
+  graph_ok (proj_stages ex_stop_plan) [([7], [[0]])] = false.
 Proof.
   split.
   - vm_compute. repeat (constructor; [simpl; intuition discriminate|]). constructor.
